@@ -270,6 +270,23 @@ def faults():
         m.k = L()(a=m.s2, b=m.j.b)
         return m
     yield ("noconn/chain-referenced", nc_shared_ref)
+    # ... referenced only through a concatenation / a slice of the port reference (never in the port-reference group)
+    for how in ("concat", "slice", "concat-of-slice"):
+        def nc_derived(how=how):
+            m = base()
+            m.i = L()(a=h.NoConn(), b=m.s1)
+            ref = {"concat": lambda: h.Concat(m.i.a[0], m.s1), "slice": lambda: m.i.a[0:2],
+                   "concat-of-slice": lambda: h.Concat(m.s1, m.i.a[1])}[how]()
+            m.j = L()(a=ref, b=m.s1)
+            return m
+        yield (f"noconn/referenced-through-{how}", nc_derived)
+
+    def nc_derived_scalar():
+        m = base()
+        m.i = L()(a=m.s2, b=h.NoConn())
+        m.j = L()(a=h.Concat(m.i.b, m.s1), b=m.s1)
+        return m
+    yield ("noconn/referenced-through-concat-scalar", nc_derived_scalar)
     # ---- circular instantiation
     def circular():
         a = h.Module(name="CircA")
